@@ -181,6 +181,7 @@ def run(ck, F):
                                 ck.violation("R3", f"{d}", B.term(bb).get("sp"),
                                              f"Files.map is accessed through {d} ({why}): files that are not reachable by an import can influence the result", fn=b["path"])
     ck.floor("R3", "Files.map access sites", n_acc, 3)
+    rule_verbatim_keys(ck, F, "R4")
     # ---- R4 utils
     ub = F.lib.body("utils::read_input_file_and_xsd_files_at_path")
     if ub is None:
@@ -318,3 +319,46 @@ def _file_name_sources(F, B, operand, ident):
         paths |= sub
         ok = ok and ok2
     return paths, ok and bool(paths)
+
+
+def rule_verbatim_keys(ck, F, rule):
+    # the key a file is stored under is the name it was registered with, verbatim: a normalised key (case folding, trimming,
+    # canonical paths ..) makes distinct files collide, and an unreachable sibling can then replace a reachable one
+    VERBATIM = M.IDENTITY_CALLS + ("string::ToString::to_string", "fmt::Display::to_string", "convert::From::from", "String::from")
+    n_ins = 0
+    for b in scans.bodies(F.lib):
+        if "yaserde_tests" in b["path"] or not b["path"].startswith(("reader::", "<reader::")):
+            continue
+        B = I.inlined_body(F.lib, b["path"], stop=lambda p: p.startswith(("model::", "<model::")))
+        if B is None:
+            continue
+        for bb, t in B.calls():
+            d = M.Body.callee_decl(t) or ""
+            if not ("HashMap" in d and d.endswith(("::insert", "::from"))):
+                continue
+            tgt = M.trace(B, t["args"][0], ()) if d.endswith("::insert") else []
+            if d.endswith("::insert") and not any("map" in o.fields() for o in tgt):
+                continue
+            if d.endswith("::from") and "FileContent" not in B.local_ty(t["dest"]["l"]):
+                continue
+            keys = []
+            if d.endswith("::insert"):
+                keys = M.trace(B, t["args"][1], VERBATIM)
+            else:
+                for o in M.trace(B, t["args"][0], ()):
+                    if o.kind == "aggregate" and o.rv.get("ops"):
+                        for tup in M.trace(B, o.rv["ops"][0], ()):
+                            if tup.kind == "aggregate" and tup.rv.get("ops"):
+                                keys += M.trace(B, tup.rv["ops"][0], VERBATIM)
+            if not keys:
+                continue
+            n_ins += 1
+            bad = [o for o in keys if o.kind != "arg"]
+            if bad:
+                what = M.Body.callee_decl(bad[0].term) if bad[0].kind == "call" else bad[0].kind
+                ck.violation(rule, f"key-not-verbatim:{b['path'].rsplit('::', 1)[-1]}", B.term(bb).get("sp"),
+                             f"{b['path']}: the key a file is stored under is computed by {what}, not the registered name itself: two files whose "
+                             f"names normalise alike replace each other, and a file no import reaches can stand in for one that is", fn=b["path"])
+            else:
+                ck.ok(rule, f"key-verbatim:{b['path'].rsplit('::', 1)[-1]}", B.term(bb).get("sp"), "files are stored under the registered name, verbatim", fn=b["path"])
+    ck.floor(rule, "file table insertions", n_ins, 1)
